@@ -31,6 +31,10 @@ type dsMode struct {
 	name      string // oracle prefix
 	listeners bool
 	closing   bool
+	// directed: a prelude first drives one sync of P1 into its block hook,
+	// lets more than twice the idle-handler TTL pass there (slow user code),
+	// then starts a second sync of P1; random scheduling takes over after.
+	directed bool
 }
 
 type annRec struct {
@@ -53,6 +57,7 @@ type expOp struct {
 	err     error
 	hook0   int
 	afterCl bool // started after a Close call was released
+	t0, t1  time.Duration
 }
 
 type evSend struct {
@@ -105,6 +110,8 @@ type dsWorld struct {
 	closeBegun      bool
 	closeDone       bool
 	recvReleased    int
+	idleTTL         time.Duration
+	slowHook        bool
 	hooksAtClose    int
 	storeOpsAtClose int
 }
@@ -231,13 +238,18 @@ func runDsync(r *simkit.Run, c Cfg, mode dsMode) {
 	npub := tp.Range(1, 3, "npub")
 	for i := 0; i < npub; i++ {
 		name := fmt.Sprintf("P%d", i+1)
-		d.pubs = append(d.pubs, w.NewPublisher(PubOpts{Name: name, NAds: tp.Range(0, 5, "initAds"), Discovery: tp.Chance(1, 2, "disc"),
+		d.pubs = append(d.pubs, w.NewPublisher(PubOpts{Name: name, NAds: tp.Range(map[bool]int{true: 3, false: 0}[mode.directed], 5, "initAds"), Discovery: tp.Chance(1, 2, "disc"),
 			Hosts: []string{fmt.Sprintf("10.0.0.%d:3104", i+1)}}))
 	}
 	d.limit = []int{0, 0, 1, 2, npub}[tp.Choose(5, "limit")]
 	idle := time.Hour
-	if tp.Chance(1, 4, "shortIdle") {
+	if mode.directed || tp.Chance(1, 4, "shortIdle") {
 		idle = time.Duration(tp.Range(20, 60, "idleTTL")) * time.Second
+	}
+	d.idleTTL = idle
+	d.slowHook = idle < time.Hour && tp.Chance(1, 2, "slowHook")
+	if d.slowHook || mode.directed {
+		sites["hook.call"] = true
 	}
 	seg := int64(-1)
 	if tp.Chance(1, 3, "seg") {
@@ -292,6 +304,9 @@ func runDsync(r *simkit.Run, c Cfg, mode dsMode) {
 	if tp.Chance(1, 2, "explicit?") {
 		nexp = 1 + tp.Choose(2, "nExp")
 	}
+	if mode.directed {
+		nexp = 2
+	}
 	for j := 0; j < nexp; j++ {
 		name := fmt.Sprintf("exp%d", j+1)
 		n := tp.Range(1, 3, "nExpOps")
@@ -300,11 +315,18 @@ func runDsync(r *simkit.Run, c Cfg, mode dsMode) {
 			for i := 0; i < n; i++ {
 				t.Yield("op")
 				pub := d.pubs[tp.Choose(len(d.pubs), "expPub")]
-				op := &expOp{pub: pub, task: name, gid: gid, start: r.Step(), hook0: len(d.sub.Hooks()), afterCl: d.closeCalled}
+				if mode.directed && i == 0 {
+					pub = d.pubs[0]
+				}
+				op := &expOp{pub: pub, task: name, gid: gid, start: r.Step(), hook0: len(d.sub.Hooks()), afterCl: d.closeCalled, t0: r.SimTime()}
 				d.exps = append(d.exps, op)
 				t.Logf("SyncAdChain(%s)", pub.Name)
 				op.got, op.err = d.sub.Sub.SyncAdChain(bg, pub.AddrInfo())
 				op.end = r.Step()
+				op.t1 = r.SimTime()
+				if op.t1-op.t0 > d.idleTTL {
+					r.Probe("explicit-sync-outlasted-idle-ttl")
+				}
 				op.done = true
 				t.Logf("SyncAdChain(%s) -> %s err=%v", pub.Name, w.CidName(op.got), op.err != nil)
 			}
@@ -361,6 +383,13 @@ func runDsync(r *simkit.Run, c Cfg, mode dsMode) {
 			return a
 		}
 		switch p.Site {
+		case "hook.call":
+			if d.slowHook && r.TaskOf(p.GID) != "" {
+				// slow user code in the block hook of an explicit sync:
+				// everything else is four times as likely to go first
+				return &simkit.Action{Name: "release hook.call|" + p.Who, Weight: 1, Do: func() { r.Release(p, nil) }}
+			}
+			return &simkit.Action{Name: "release hook.call|" + p.Who, Weight: 4, Do: func() { r.Release(p, nil) }}
 		case "op.cancel":
 			for _, l := range d.lsts {
 				if l.name != p.Who {
@@ -477,11 +506,21 @@ func runDsync(r *simkit.Run, c Cfg, mode dsMode) {
 		return nil
 	}
 	extra := func() []simkit.Action {
-		if !r.TimeMayPass("net.req", "op", "close", "hook.call") || !tp.Chance(1, 4, "clock?") {
+		den := 4
+		if d.slowHook {
+			den = 2
+		}
+		if !r.TimeMayPass("net.req", "op", "close", "hook.call") || !tp.Chance(1, den, "clock?") {
 			return nil
 		}
 		return []simkit.Action{{Name: "advance clock", Weight: 1, Do: func() {
-			q := []time.Duration{time.Second, 5 * time.Second, 30 * time.Second, 2 * time.Minute}[tp.Choose(4, "clock.q")] + jitter(tp)
+			quanta := []time.Duration{time.Second, 5 * time.Second, 30 * time.Second, 2 * time.Minute}
+			if d.idleTTL < time.Hour {
+				// syncs that outlast the idle-handler TTL (twice, so that a
+				// cleaner tick falls after the expiry)
+				quanta = append(quanta, d.idleTTL+time.Second, 2*d.idleTTL+time.Second)
+			}
+			q := quanta[tp.Choose(len(quanta), "clock.q")] + jitter(tp)
 			r.Logf("~sched", "clock +%v", q)
 			r.Advance(q)
 		}}}
@@ -489,6 +528,9 @@ func runDsync(r *simkit.Run, c Cfg, mode dsMode) {
 	inv := func() {
 		d.pump()
 		d.invariants()
+	}
+	if mode.directed {
+		d.prelude(custom, inv)
 	}
 	done := func() bool { return r.TasksDone() && len(r.AllParked()) == 0 }
 	out := r.Loop(simkit.LoopCfg{Custom: custom, Extra: extra, Invariant: inv, MaxSteps: 2500, Done: done})
@@ -546,6 +588,70 @@ func runDsync(r *simkit.Run, c Cfg, mode dsMode) {
 		}
 	}
 	w.Shutdown(d.sub, ls...)
+}
+
+// prelude of the directed mode.
+func (d *dsWorld) prelude(custom func(p *simkit.Parked) *simkit.Action, inv func()) {
+	r, tp := d.r, d.r.Tape
+	starters := func() []*simkit.Parked {
+		var out []*simkit.Parked
+		for _, p := range r.Enabled() {
+			if p.Site == "op" && (strings.HasPrefix(p.Who, "exp") || p.Who == "ann.P1") {
+				out = append(out, p)
+			}
+		}
+		return out
+	}
+	r.Quiesce()
+	st := starters()
+	if len(st) == 0 {
+		return
+	}
+	first := st[tp.Choose(len(st), "prelude.first")]
+	r.Logf("~sched", "prelude: start %s", first.Who)
+	r.Release(first, nil)
+	// drive only library and network actions until a hook call of P1 parks
+	held := false
+	for i := 0; i < 300 && !held; i++ {
+		r.Quiesce()
+		inv()
+		var acts []simkit.Action
+		for _, p := range r.Enabled() {
+			if p.Site == "hook.call" && strings.HasPrefix(p.Who, "P1 ") {
+				held = true
+				break
+			}
+			if p.Site == "op" || p.Site == "op.cancel" || p.Site == "close" {
+				continue
+			}
+			p := p
+			if a := custom(p); a != nil {
+				if a.Do != nil {
+					acts = append(acts, *a)
+				}
+				continue
+			}
+			acts = append(acts, simkit.Action{Name: "release " + p.Site + "|" + p.Who, Weight: 1, Do: func() { r.Release(p, nil) }})
+		}
+		if held || len(acts) == 0 {
+			break
+		}
+		r.ChooseAction(acts, "prelude")
+	}
+	if !held {
+		return
+	}
+	r.Probe("prelude-sync-held-in-hook")
+	r.Logf("~sched", "prelude: slow hook, clock +%v", 2*d.idleTTL+time.Second)
+	r.Advance(2*d.idleTTL + time.Second + jitter(tp))
+	r.Quiesce()
+	inv()
+	st = starters()
+	if len(st) > 0 {
+		second := st[tp.Choose(len(st), "prelude.second")]
+		r.Logf("~sched", "prelude: start %s", second.Who)
+		r.Release(second, nil)
+	}
 }
 
 func (d *dsWorld) stuckReport(out string) {
@@ -1016,14 +1122,16 @@ func (d *dsWorld) postCloseBattery() {
 var _ = context.Background
 var _ = peer.ID("")
 
-func runC08(r *simkit.Run, c Cfg) { runDsync(r, c, dsMode{name: "c08"}) }
-func runC14(r *simkit.Run, c Cfg) { runDsync(r, c, dsMode{name: "c14", listeners: true}) }
+func runC08(r *simkit.Run, c Cfg)  { runDsync(r, c, dsMode{name: "c08"}) }
+func runC08D(r *simkit.Run, c Cfg) { runDsync(r, c, dsMode{name: "c08", directed: true}) }
+func runC14(r *simkit.Run, c Cfg)  { runDsync(r, c, dsMode{name: "c14", listeners: true}) }
 func runC15(r *simkit.Run, c Cfg) {
 	runDsync(r, c, dsMode{name: "c15", listeners: true, closing: true})
 }
 
 func init() {
 	Register(&Scenario{Name: "C08", Property: "C08", Run: runC08})
+	Register(&Scenario{Name: "C08D", Property: "C08", Run: runC08D})
 	Register(&Scenario{Name: "C14", Property: "C14", Run: runC14})
 	Register(&Scenario{Name: "C15", Property: "C15", Run: runC15})
 }
